@@ -102,6 +102,12 @@ def census(items, chains=None, titrate_only=None):
     for (a, g), (b, h) in itertools.combinations(sgs, 2):
         if (a.x - b.x) ** 2 + (a.y - b.y) ** 2 + (a.z - b.z) ** 2 < 2500 ** 2:
             g['bridged'] = h['bridged'] = True
+    # a disulfide with a sulfur that is not a cysteine SG (thiol adducts such as BME, DTT, glutathione written as HETATM)
+    sulfurs = [it for it in items if not isinstance(it, str) and it.element == 'S' and it.resname not in IGNORE and not (chains and it.chain not in chains)]
+    for a, g in sgs:
+        for b in sulfurs:
+            if b is not a and (a.x - b.x) ** 2 + (a.y - b.y) ** 2 + (a.z - b.z) ** 2 < 2500 ** 2:
+                g['bridged'] = True
     if titrate_only is not None:
         keep = set(titrate_only)
         out = [g for g in out if (g['chain'], g['resnum'], g['icode']) in keep]
@@ -464,10 +470,19 @@ def plan(tier, seed):
             others.append(dict(kind='layout', how='alt', layout=lay, partial=partial))
     for lay in ([(1, 'ASP'), (2, 'ASPnoCG')], [(1, 'ASPnoCG'), (2, 'ASP')], [(1, 'ASP'), (2, 'ASPnoCG'), (3, 'ASPs')]):
         others.append(dict(kind='layout', how='model', layout=lay))
+    # alt-loc / model point mutants, also at the chain ends: the average lists every site exactly once (a terminus is one site
+    # whatever side chain the residue carries in a conformation)
+    for pos in ('first', 'middle', 'last'):
+        for lay in ([('A', 'ASP'), ('B', 'ALA')], [('A', 'ALA'), ('B', 'ASP')], [('A', 'ALA'), ('B', 'ASP'), ('C', 'ASPs')]):
+            others.append(dict(kind='layout-mutant', how='alt', layout=lay, pos=pos))
+        for lay in ([(1, 'ASP'), (2, 'ALA')], [(1, 'ALA'), (2, 'ASP'), (3, 'ALA')]):
+            others.append(dict(kind='layout-mutant', how='model', layout=lay, pos=pos))
     # two cysteines docked SG-SG: bridged below 2.5 A whatever the direction of the S-S vector and whatever is listed
     for d in ((2.03, 2.499, 2.6) if tier == 'quick' else (2.0, 2.03, 2.2, 2.4, 2.499, 2.501, 2.6, 3.0)):
         for orient in ('dock', '+x', '-x', '+y', '-y', '+z', '-z', 'diag'):
             others.append(dict(kind='bridge', d=d, orient=orient))
+            if orient in ('dock', '+x', 'diag'):
+                others.append(dict(kind='bridge', d=d, orient=orient, partner='MSH'))      # a thiol ligand on the cysteine
     allc = streams + windows
     size = 400
     shards = [allc[i:i + size] for i in range(0, len(allc), size)] + [[c] for c in others]
@@ -583,11 +598,34 @@ def run_case(case, ctx, acc):
             return
         cks, exp, mol = compare(case, s.items, opts, acc, chains=case['chains'], text=text)
         acc.case(nontrivial_key=jhash(case), outcome='whole:%s:%d' % (case['key'], len(exp)))
+    elif k == 'layout-mutant':
+        from . import c08
+        d = dict(kind=case['how'], layout=[tuple(x) for x in case['layout']], pos=case['pos'])
+        text = gen.to_text(c08.build(d, ctx.seed))
+        full = c08.build(dict(kind='alt', layout=[(' ', 'ASP')], pos=case['pos']), ctx.seed)     # every site that exists in some conformation
+        exp, info, st, tr = census(full.items)
+        mol = pk.run(text, (), write=True)
+        want = collections.Counter(key4(g) for g in exp)
+        got = collections.Counter(key4(g) for g in observed(mol, 'AVR'))
+        acc.case(nontrivial_key=jhash(case), outcome='layout-mutant')
+        acc.extra['states'] += st
+        acc.extra['transitions'] += tr
+        for kk in (want - got):
+            acc.viols.append(Viol(case, 'census', 'avr-missing/%s/point-mutant-%s' % (kk[3], case['pos']), 'expected %s in the average' % (kk,), inputs=dict(pdb=text)))
+        for kk in (got - want):
+            acc.viols.append(Viol(case, 'census', 'avr-spurious/%s/point-mutant-%s' % (kk[3], case['pos']), '%s listed %d times in the average' % (kk, got[kk]), inputs=dict(pdb=text)))
+        sumc = collections.Counter(r['label'] for r in pk.parse_pka(mol._pka_text)['summary'] if not r['ltype'])
+        for g in exp:
+            if g['kind'] == 'ASP' and 'sidechain-within-3-bonds-of-own-Nterm' in info.get(g['res'], ()):
+                continue
+            if sumc[label(g)] != 1 and not (g['kind'] == 'C-' and 'Cterm-within-3-bonds-of-own-Nterm' in info.get(g['res'], ())):
+                acc.viols.append(Viol(case, 'census', 'summary-count/%s/point-mutant-%s' % (g['kind'], case['pos']), 'summary lists %r %d times' % (label(g), sumc[label(g)]),
+                                      inputs=dict(pdb=text)))
     elif k == 'cfg-table':
         cfg_table(case, acc)
     elif k == 'bridge':
-        s = gen.pair('CYS', 'CYS', case['d'])
-        sg = [a for a in s.atoms if a.name == 'SG']
+        s = gen.pair('CYS', case.get('partner', 'CYS'), case['d'])
+        sg = [a for a in s.atoms if a.element == 'S']
         if case['orient'] != 'dock':
             target = {'+x': [1, 0, 0], '-x': [-1, 0, 0], '+y': [0, 1, 0], '-y': [0, -1, 0], '+z': [0, 0, 1], '-z': [0, 0, -1],
                       'diag': [1, 1, 1]}[case['orient']]
@@ -596,10 +634,12 @@ def run_case(case, ctx, acc):
                 c = (a.x, a.y, a.z)
                 a.x, a.y, a.z = (int(round(sum(R[i][j] * c[j] for j in range(3)))) for i in range(3))
         s.translate(gen.seed_offset(ctx.seed))
-        keys = [(a.chain, a.resnum, a.icode) for a in sg]
+        keys = [(a.chain, a.resnum, a.icode) for a in sg if a.rec == 'ATOM  ']
         other = [(a.chain, a.resnum, a.icode) for a in s.atoms if a.rec == 'ATOM  ' and (a.chain, a.resnum, a.icode) not in keys][:1]
         arg = lambda ks: ','.join('%s:%d%s' % (c, n, i.strip()) for c, n, i in ks)   # noqa: E731
         for sel in (None, keys[:1], keys[1:], keys, other, other + keys[:1]):
+            if sel is not None and not sel:
+                continue
             if sel is None:
                 compare(dict(case, titrate_only=None), s.items, (), acc)
             else:
